@@ -62,8 +62,8 @@ CLAIMS["C16"] = (
 )
 CLAIMS["C12"] = (
     "Lean 4 proofs of the algebraic symmetries on closed forms / algorithm models (+ L1 tie to the regenerated kernels) + paired-run correspondence on transformed data",
-    "Theorems agg_perm_invariant, orderDesc_vals_perm_invariant, penGeneral_perm_invariant (permutation), l2Optim_shift_invariant, gaussOptim_shift_invariant, cusum_shift_invariant (shift), gauss_change_score_scale_invariant (scale, above the floor), segSum_reverse, pelt_reversal_bijection (reversal); lift to the detectors: pelt_/capa_/mw_/sbs_/cbs_output_depends_on_admissible_* (score tables that agree on the admissible cuts inside [0,n] give identical scores and detections, from Lemmas/Congr.lean) and the composed pelt_l2_shift_invariant, pelt_gauss_shift_invariant (PELT output on x+c = output on x, from the rows) in Skc/Props/C12.lean, for all data / lengths / constants.",
-    "the lift from invariant score tables to identical detector outputs is proved over exact arithmetic; floating-point margins are exercised by paired runs (a differing discrete output counts only if it persists under 1e-9 perturbations); multivariate Gaussian cost: numeric only; Gaussian statements hold above the variance floor (cases at the floor are skipped and counted).",
+    "Theorems agg_perm_invariant, orderDesc_vals_perm_invariant, penGeneral_perm_invariant (permutation), l2Optim_shift_invariant, gaussOptim_shift_invariant, cusum_shift_invariant (shift), gauss_change_score_scale_invariant (scale, above the floor), segSum_reverse, pelt_reversal_bijection (reversal); lift to the detectors: pelt_/capa_/mw_/sbs_/cbs_output_depends_on_admissible_* (score tables that agree on the admissible cuts inside [0,n] give identical scores and detections, from Lemmas/Congr.lean) and the composed pelt_l2_shift_invariant, pelt_gauss_shift_invariant (PELT output on x+c = output on x, from the rows); gcov_shift_invariant, gcov_scale_invariant (multivariate Gaussian cost defined from the rows with Mathlib's Matrix.det: covariance unchanged by shifts, multiplied by a^2 under rescaling, change score unchanged for non-singular covariances) in Skc/Props/C12.lean, for all data / lengths / constants.",
+    "the lift from invariant score tables to identical detector outputs is proved over exact arithmetic; floating-point margins are exercised by paired runs (a differing discrete output counts only if it persists under 1e-9 perturbations); multivariate Gaussian cost: the theorems are about its definition from the rows, which the code computes directly with np.cov / slogdet (tied numerically by the C01 check, not by the translator); Gaussian statements hold above the variance floor (cases at the floor are skipped and counted).",
     "3/C12",
 )
 CLAIMS["C15"] = (
